@@ -14,7 +14,7 @@ sys.path.insert(0, os.path.dirname(os.path.abspath(__file__)))
 import vf
 import codec_common as cc
 
-CLASSES = ["valid", "att_len", "att_len2", "frame_len", "frame_tag", "trunc_at", "trunc_in", "len_pm", "flip"]
+CLASSES = ["valid", "att_len", "att_len2", "frame_len", "frame_tag", "trunc_at", "trunc_in", "len_pm", "len_set", "flip"]
 # Gross bound (the statement asks for "a constant multiple of the input length"): decoding into Go structs expands a
 # one-octet item to at most a few hundred bytes of headers (e.g. an empty report list entry), binary.Read adds per-field scratch.
 ALLOC_K = 1 << 20
